@@ -9,8 +9,7 @@ import protocol
 
 
 def build(tier):
-    # csearch_t::search itself is proved by ./check C03 (same contract text, specs/C03/protocol.h)
-    prox = [t for t in protocol.targets(['NV_C02']) if t.name != 'csearch_search']
+    prox = protocol.targets(['NV_C02'])
     return {
         'targets': common.targets(['NV_C02']) + statefns.targets() + nonls.targets() + prox, 'vcs': [],
         'decided': ['solver_t::done decision protocol; lsearch_t::get; do_minimize of gd / cgd-* / lbfgs / bfgs,dfp,sr1,hoshino,fletcher (17 solvers share these four bodies): status in {converged, max_iters, failed}; unless failed the returned state is valid (finite value and point); the reported (x, f, g) is one consistent evaluation; reported evaluation counts <= evaluations performed; the budget loop terminates and overshoots max_evals by at most one line search (<= 10*max_iterations evaluations, C07: CG_DESCENT alone may take 7*max_iterations+1)',
